@@ -107,6 +107,50 @@ def parse(data: bytes) -> dict:
     return rv
 
 
+def parse_segmentation(body: bytes) -> dict:
+    """segmentation_descriptor() of ANSI/SCTE 35 section 10.3.3; body = the bytes after descriptor_length"""
+    b = Bits(body)
+    rv = {'identifier': b.get(32), 'segmentation_event_id': b.get(32), 'cancel': b.get(1)}
+    b.get(7)
+    if rv['cancel']:
+        if b.bytepos() != len(body):
+            raise ValueError('bytes after a cancelled segmentation descriptor')
+        return rv
+    rv['program_segmentation_flag'] = b.get(1)
+    rv['segmentation_duration_flag'] = b.get(1)
+    rv['delivery_not_restricted_flag'] = b.get(1)
+    if rv['delivery_not_restricted_flag']:
+        b.get(5)
+    else:
+        rv['web_delivery_allowed_flag'] = b.get(1)
+        rv['no_regional_blackout_flag'] = b.get(1)
+        rv['archive_allowed_flag'] = b.get(1)
+        rv['device_restrictions'] = b.get(2)
+    if not rv['program_segmentation_flag']:
+        rv['components'] = []
+        for _ in range(b.get(8)):
+            tag = b.get(8)
+            b.get(7)
+            rv['components'].append((tag, b.get(33)))
+    if rv['segmentation_duration_flag']:
+        rv['segmentation_duration'] = b.get(40)
+    rv['segmentation_upid_type'] = b.get(8)
+    n = b.get(8)
+    rv['segmentation_upid'] = bytes(body[b.bytepos():b.bytepos() + n])
+    if len(rv['segmentation_upid']) != n:
+        raise ValueError('segmentation_upid beyond the descriptor')
+    b.pos += 8 * n
+    rv['segmentation_type_id'] = b.get(8)
+    rv['segment_num'] = b.get(8)
+    rv['segments_expected'] = b.get(8)
+    if rv['segmentation_type_id'] in (0x34, 0x36, 0x38, 0x3A) and b.bytepos() < len(body):
+        rv['sub_segment_num'] = b.get(8)
+        rv['sub_segments_expected'] = b.get(8)
+    if b.bytepos() != len(body):
+        raise ValueError(f'{len(body) - b.bytepos()} bytes left in segmentation descriptor')
+    return rv
+
+
 def selftest() -> list[str]:
     bad = []
     # ANSI/SCTE 35 section 14.2 example
@@ -124,6 +168,11 @@ def selftest() -> list[str]:
         p = parse(d)
         if not (p['crc_valid'] and p['time_signal'] == 0x0746290a0):
             bad.append('SCTE-35 14.3 example mis-read')
+        sd = parse_segmentation(p['descriptors'][0][1])
+        if not (sd['segmentation_event_id'] == 0x4800008e and sd['segmentation_upid_type'] == 8 and
+                sd['segmentation_upid'] == bytes.fromhex('000000002ca0a18a') and sd['segmentation_type_id'] == 0x35 and
+                sd['segment_num'] == 2 and sd['segments_expected'] == 0):
+            bad.append(f'SCTE-35 14.3 segmentation descriptor mis-read: {sd}')
     except Exception as err:
         bad.append(f'SCTE-35 14.3 example: {err!r}')
     return bad
